@@ -1,6 +1,143 @@
-(* Props/C06.v — provisional; replaced below by the full list of pinned statements. *)
-From BSV Require Import Base.Bytes Prim.Der.
+(* Props/C06.v — pinned statements of property C06 (signature encodings DER, DER + flag, compact round-trip;
+   recovery finds the signer).  Statements only; proofs in Proofs/SigProofs.v, Proofs/EcdsaSecp.v, Prim/Der.v.
+
+   The statements are about the model Model/Sig.v (reference instance [ref_prims] where elliptic-curve arithmetic
+   is involved; the executed instance is proved equal in Proofs/EcdsaRefine.v).
+   "Malformed DER is rejected" is proved as EXACTNESS of the parsers over the Gallina DER codec (Prim/Der.v):
+   an accepted input IS the strict encoding of the result (+ one flag byte where the API says so), so inputs with
+   wrong lengths, trailing bytes, non-minimal integers, zero or out-of-range r or s are all rejected.  That the
+   `der` / `ecdsa` crates implement this codec is tied by the malformed stream of the correspondence run (partial).
+   The recovery statements carry the premise [secp256k1_group] (see Props/C05.v) and x(kG) < n: k256 records a
+   recovery id whose x-reduced bit is never set, so for the 2^-128 fraction of nonces with x(kG) >= n the recorded
+   id does not lead back to the key (not reachable by sampling; stated as a hypothesis). *)
+From BSV Require Import Base.Bytes Base.Hex.
+From BSV Require Import Prim.Num Prim.Secp256k1 Prim.Der Prim.Rfc6979 Proofs.EcdsaAbstract.
+From BSV Require Import Model.HashApi Model.Opcodes Model.Ecdsa Model.Sig Spec.EcdsaSpec.
+From BSV Require Import Proofs.EcdsaSecp Proofs.EcdsaProofs Proofs.SigProofs.
 Local Open Scope Z_scope.
-Theorem C06_der_codec_roundtrip : forall r s, 1 <= r < der_n -> 1 <= s < der_n -> der_decode (der_encode r s) = Some (r, s).
-Proof. exact der_roundtrip. Qed.
-Print Assumptions C06_der_codec_roundtrip.
+
+(* 1. DER round trip through the library functions, for every final byte (no dependence on whether it is a flag value) *)
+Theorem C06_der_roundtrip :
+  forall sg, sig_ok sg -> from_der_impl (to_der_bytes sg) = Ok (mk_sig (sig_r sg, sig_s sg)).
+Proof. exact der_roundtrip_lib. Qed.
+Print Assumptions C06_der_roundtrip.
+Theorem C06_der_hex_roundtrip :
+  forall sg, sig_ok sg -> from_hex_der (hex_of_bytes (to_der_bytes sg)) = Ok (mk_sig (sig_r sg, sig_s sg)).
+Proof. exact der_hex_roundtrip_lib. Qed.
+Print Assumptions C06_der_hex_roundtrip.
+(* every signature the library produces is in that range *)
+Theorem C06_produced_signatures_encodable : forall sg, sig_low sg -> sig_ok sg.
+Proof. exact sig_low_ok. Qed.
+Print Assumptions C06_produced_signatures_encodable.
+
+(* 2. DER + flag round trip for all fourteen flag values *)
+Theorem C06_sighash_sig_roundtrip :
+  forall sg f buf, sig_ok sg -> is_flag f = true ->
+  (do b <- sighashsig_to_bytes {| ss_sig := sg; ss_flag := f; ss_buffer := buf |}; sighashsig_from_bytes b buf)
+  = Ok {| ss_sig := mk_sig (sig_r sg, sig_s sg); ss_flag := f; ss_buffer := buf |}.
+Proof. exact sighash_sig_roundtrip. Qed.
+Print Assumptions C06_sighash_sig_roundtrip.
+Theorem C06_fourteen_flags :
+  (forall b, is_flag b = spec_is_flag b) /\ forallb (fun v => is_flag (n2b v)) flag_bytes = true /\ length flag_bytes = 14%nat.
+Proof. exact (conj is_flag_spec fourteen_flags). Qed.
+Print Assumptions C06_fourteen_flags.
+Theorem C06_from_der_accepts_flag_suffix :
+  forall sg f, sig_ok sg -> is_flag f = true -> from_der_impl (to_der_bytes sg ++ [f]) = Ok (mk_sig (sig_r sg, sig_s sg)).
+Proof. exact der_flag_suffix_lib. Qed.
+Print Assumptions C06_from_der_accepts_flag_suffix.
+
+(* 3. Malformed input is rejected: the parsers are exact *)
+Theorem C06_from_der_exact :
+  forall bs sg, from_der_impl bs = Ok sg ->
+  sig_ok sg /\ sig_rec sg = None /\
+  (bs = to_der_bytes sg \/ exists f, is_flag f = true /\ bs = to_der_bytes sg ++ [f]).
+Proof. exact from_der_exact. Qed.
+Print Assumptions C06_from_der_exact.
+Theorem C06_sighashsig_exact :
+  forall bs buf ss, sighashsig_from_bytes bs buf = Ok ss ->
+  sig_ok (ss_sig ss) /\ is_flag (ss_flag ss) = true /\ bs = to_der_bytes (ss_sig ss) ++ [ss_flag ss].
+Proof. exact sighashsig_exact. Qed.
+Print Assumptions C06_sighashsig_exact.
+Theorem C06_der_codec_exact : forall bs r s, der_decode bs = Some (r, s) -> bs = der_encode r s.
+Proof. exact der_exact. Qed.
+Print Assumptions C06_der_codec_exact.
+Theorem C06_der_codec_range : forall bs r s, der_decode bs = Some (r, s) -> 1 <= r < der_n /\ 1 <= s < der_n.
+Proof. exact der_decode_range. Qed.
+Print Assumptions C06_der_codec_range.
+Theorem C06_der_codec_no_trailing : forall bs rs, der_decode bs = Some rs -> forall t, t <> [] -> der_decode (bs ++ t) = None.
+Proof. exact der_decode_app_nonempty. Qed.
+Print Assumptions C06_der_codec_no_trailing.
+
+(* 4. Compact form: all four recovery ids x both compression markers; header = 27 + recid + 4*compressed; total parser *)
+Theorem C06_compact_roundtrip :
+  forall sg ri, sig_ok sg ->
+  from_compact_impl (to_compact_bytes sg (Some ri)) = Ok {| sig_r := sig_r sg; sig_s := sig_s sg; sig_rec := Some ri |}.
+Proof. exact compact_roundtrip. Qed.
+Print Assumptions C06_compact_roundtrip.
+Theorem C06_compact_roundtrip_own :
+  forall sg ri, sig_ok sg -> sig_rec sg = Some ri -> from_compact_impl (to_compact_bytes sg None) = Ok sg.
+Proof. exact compact_roundtrip_own. Qed.
+Print Assumptions C06_compact_roundtrip_own.
+Theorem C06_compact_header :
+  forall ri, compact_header ri =
+  (27 + ((if ri_x_reduced ri then 2 else 0) + (if ri_y_odd ri then 1 else 0)) + (if ri_compressed ri then 4 else 0))%N.
+Proof. exact compact_header_spec. Qed.
+Print Assumptions C06_compact_header.
+Theorem C06_from_compact_total : forall bs, from_compact_impl bs <> Panic.
+Proof. exact from_compact_total. Qed.
+Print Assumptions C06_from_compact_total.
+Theorem C06_from_compact_rejects :
+  forall bs, (length bs <> 65%nat \/ exists h t, bs = h :: t /\ ~ (27 <= b2n h <= 34)%N) -> from_compact_impl bs = Err.
+Proof. exact from_compact_rejects. Qed.
+Print Assumptions C06_from_compact_rejects.
+
+(* 5. Recovery returns exactly the signer's public key in the recorded compression form *)
+Theorem C06_prim_recover_signer :
+  secp256k1_group -> forall d k z r s v,
+  0 < k < secp_n -> 0 <= xcoord (smul k G) < secp_n -> smul d G <> None ->
+  prim_sign d k z = Some (r, s, v) -> recover r s v z = Ok (smul d G).
+Proof. exact secp_recover_signer. Qed.
+Print Assumptions C06_prim_recover_signer.
+Theorem C06_sign_recovers :
+  secp256k1_group -> forall sk m a rk sg,
+  valid_sk sk -> sign_with_deterministic_k ref_prims sk m a rk = Ok sg ->
+  (forall k, det_nonce (sk_d sk) (message_digest a m) rk = Some k -> 0 <= xcoord (smul k G) < secp_n) ->
+  get_public_key ref_prims sg m a = Ok (to_public_key ref_prims sk).
+Proof. exact sign_det_recovers. Qed.
+Print Assumptions C06_sign_recovers.
+Theorem C06_sign_compact_recover :
+  secp256k1_group -> forall sk m a rk sg,
+  valid_sk sk -> sign_with_deterministic_k ref_prims sk m a rk = Ok sg ->
+  (forall k, det_nonce (sk_d sk) (message_digest a m) rk = Some k -> 0 <= xcoord (smul k G) < secp_n) ->
+  (do back <- from_compact_impl (to_compact_bytes sg None); get_public_key ref_prims back m a)
+  = Ok (to_public_key ref_prims sk).
+Proof. exact sign_compact_recover. Qed.
+Print Assumptions C06_sign_compact_recover.
+(* the guard added by fix 3b86143 never fires on a genuine signature *)
+Theorem C06_genuine_not_identity :
+  secp256k1_group -> forall d k z r s v R,
+  0 < k < secp_n -> 0 <= xcoord (smul k G) < secp_n -> smul d G <> None ->
+  prim_sign d k z = Some (r, s, v) -> lift_x r v = Some R -> smul s R <> smul z G.
+Proof. exact secp_genuine_not_identity. Qed.
+Print Assumptions C06_genuine_not_identity.
+(* ... and for a different message scalar the recovered point is NOT the signer's key *)
+Theorem C06_recover_other_z :
+  secp256k1_group -> forall d k z z' r s v,
+  0 < k < secp_n -> 0 <= xcoord (smul k G) < secp_n ->
+  prim_sign d k z = Some (r, s, v) -> ~ eqm secp_n z' z ->
+  recover_point r s v z' <> Some (smul d G).
+Proof. exact secp_recover_other_z. Qed.
+Print Assumptions C06_recover_other_z.
+
+(* Non-vacuity *)
+Example C06_example_der :
+  from_der_impl (to_der_bytes (mk_sig (ex_r, ex_s))) = Ok (mk_sig (ex_r, ex_s)) /\
+  to_der_bytes (mk_sig (ex_r, ex_s)) = ex_sig /\ last_opt ex_sig = Some xe5 /\
+  from_der_impl (ex_sig ++ [x41]) = Ok (mk_sig (ex_r, ex_s)) /\ from_der_impl (ex_sig ++ [x04]) = Err /\
+  from_der_impl (ex_sig ++ [x41; x01]) = Err /\
+  sighashsig_from_bytes (ex_sig ++ [x41; x01]) [] = Err /\ sighashsig_from_bytes ex_sig [] = Err.
+Proof. vm_compute. repeat split; reflexivity. Qed.
+Example C06_example_compact :
+  to_compact_bytes (mk_sig (1, 2)) (Some {| ri_y_odd := true; ri_x_reduced := false; ri_compressed := true |})
+  = x20 :: be32 1 ++ be32 2.
+Proof. vm_compute. reflexivity. Qed.
